@@ -290,6 +290,17 @@ def run_load(case, ctx):
     else:
         m.finalise()
     r = M.Rig(m)
+    if (case["buf"] + len(case["holes"])) % 3 == 0:
+        # the machine does not answer when the controller first talks to it
+        # (not up yet); the application catches the error and carries on
+        r.net.plan = lambda net, sock, data, n: [("lost",)]
+        try:
+            r.mc.read(0x60000000, 4, 0, 0, 0)
+            raise Violation("oracle", "silent machine answered")
+        except r.sc.SCPError:
+            ctx.hit("first_contact_failed")
+        r.net.plan = None
+        del m.protocol_errors[:]
     mc = r.mc
     nt = False
 
